@@ -117,7 +117,8 @@ Definition site_of (left : bool) (ft : str) (i s : row) : Prop :=
   exists si ei id0 rest, r_start i = Some si /\ r_end i = Some ei /\ dget IDk (r_attrs i) = Some (id0 :: rest) /\
     r_start s = Some (if left then si else ei - 1) /\ r_end s = Some (if left then si + 1 else ei) /\
     r_ftype s = r_ftype i /\ r_seqid s = r_seqid i /\ r_strand s = r_strand i /\
-    r_attrs s = dset IDk [ft ++ [USC] ++ id0] (r_attrs i).
+    r_attrs s = dset IDk [ft ++ [USC] ++ id0] (r_attrs i) /\
+    r_bin s = feature_bin (r_start s) (r_end s).      (* the bin of the two-base site, not of the intron it was cut from *)
 
 Theorem l_splice_sites left tstrand merge numeric exons sites :
   splice_side left tstrand merge numeric exons = Ok sites ->
